@@ -308,12 +308,14 @@ Proof.
     destruct a as [[[start end_] nonblank] term]. conjs. subst start.
     eapply spec_conseq; [apply IHlo | fin' | fin'].
     + assumption.
-    + cbn [elements].
-      repeat match goal with
+    + cbv zeta. destruct (is_line_start (role st)), nonblank; cbn [andb negb orb elements].
+      all: repeat match goal with
              | |- Forall _ (elements (if ?c then _ else _)) => destruct c
              end; cbn [elements]; try exact Hst.
       all: constructor; [|exact Hst]; cbn [ParserHelpers.ph_ok];
-        rewrite (Nat.add_comm p indent); subst s; splits; assumption.
+        try (rewrite (Nat.add_comm p indent); subst s; splits; assumption).
+      (* the blank line: the placeholder starts after the spaces, with indent 0 *)
+      all: rewrite Nat.add_0_r; splits; try assumption; try apply asc_refl; try lia.
     + assert (p < q).
       { destruct (Nat.eq_dec indent 0) as [->|]; [|facts; lia].
         cbn [Nat.add] in Hs. subst s.
